@@ -24,7 +24,7 @@ theorem proto_not_receiver (cx : Cx) (lo hi : Nat) (o' p' : Node) (sp' : Span) (
     (hD : Deep lo hi (.member o' p' sp') (.member o p sp2))
     (hsrc : srcOk o = true)
     (hclash : (o.span == thisSrc.span) = false ∧ o.span.isDummy = false) :
-    ∀ member'', BRg (.member o' p' sp') member'' → ∀ σ', cx.ext σ' → ∀ X, Sim X thisSrc → ∀ Xs,
+    ∀ member'', BRg (.member o' p' sp') member'' → ∀ σ', cx.ext σ' → ∀ X, ESim X thisSrc → ∀ Xs,
       resolveCall (erase σ' member'').1 ca csp csp (.arg none X :: Xs) csp =
         .call (.member (erase σ' member'').1 (.pname ca csp) csp) (.arg none X :: Xs) csp := by
   intro member'' hm'' σ' _ X sX Xs
@@ -44,7 +44,7 @@ theorem proto_not_receiver (cx : Cx) (lo hi : Nat) (o' p' : Node) (sp' : Span) (
       have := hid (by rw [ho]; rfl)
       rw [ho] at this ho''
       subst this
-      rw [BRg_noBlk (noBlk_ident _ _) ho'', erase_src _ hsrc] at eXo
+      rw [BRg_noBlk (noBlk_identE _ _) ho'', erase_src _ hsrc] at eXo
       have := congrArg Prod.fst eXo
       simp only at this
       rw [← this]
